@@ -732,12 +732,31 @@ impl<'a> Session<'a> {
 
     fn offered(&self, ids: &[usize]) -> csl::TransactionUnspentOutputs {
         let mut u = csl::TransactionUnspentOutputs::new();
-        for i in ids {
+        for (pos, i) in ids.iter().enumerate() {
             if self.utxo_ok(*i) {
-                u.add(&self.w.utxo(*i));
+                let plain = self.w.utxo(*i);
+                // as a wallet connector hands UTxOs over: CBOR of another producer, decoded here
+                // (every position with its own encoding, so a repeated offer differs in bytes)
+                let decoded = self.alt_utxo_encoding(&plain.to_bytes(), pos).and_then(|b| csl::TransactionUnspentOutput::from_bytes(b).ok());
+                u.add(&decoded.unwrap_or(plain));
             }
         }
         u
+    }
+
+    fn alt_utxo_encoding(&self, b: &[u8], pos: usize) -> Option<Vec<u8>> {
+        if self.sc.alt_values == 0 {
+            return None;
+        }
+        let mut r = crate::prng::Rng::new(crate::prng::mix(self.sc.alt_values as u64 ^ 0x5555, pos as u64));
+        if r.chance(1, 2) {
+            return None;
+        }
+        let n = crate::cbor::parse(b).ok()?;
+        let mut f = crate::cbor::Foreign::new(&mut r, 100, 200, 0, 300);
+        let mut o = vec![];
+        f.emit(&n, &mut o);
+        Some(o)
     }
 
     fn change_config(&self, c: &ChangeSpec) -> csl::ChangeConfig {
